@@ -119,7 +119,8 @@ def _raise_exc(name, cid):
     elif name == "content":
         e = ContentException("content by %d" % cid)
     elif name == "calledProc":
-        e = CalledProcessError(1, "cmd%d" % cid)
+        # exit statuses a shell really gives: 127 command not found, 126 not executable, 124 timeout(1), 137 killed, ...
+        e = CalledProcessError([1, 127, 2, 126, 124, 255, 137, 0][cid % 8], "cmd%d" % cid)
     elif name == "timeout":
         e = TimeoutException("timeout by %d" % cid)
     elif name == "blacklisted":
